@@ -144,6 +144,23 @@ def _related(cons, z):
 
 
 CONFIRM_MS = (5000, 20000)
+def guarded_check(s, wall_ms):
+    """s.check() with a watchdog: z3's own `timeout` / `rlimit` are not honoured inside some non-linear real
+    arithmetic procedures (seen: a single check() that ran for more than 20 minutes on a changed tree), so a
+    timer thread interrupts the context after the wall-clock limit plus a grace period -> `unknown`."""
+    import threading
+
+    t = threading.Timer(wall_ms / 1000.0 + 2.0, s.ctx.interrupt)
+    t.daemon = True
+    t.start()
+    try:
+        return s.check()
+    except z3.Z3Exception:
+        return z3.unknown
+    finally:
+        t.cancel()
+
+
 RLIMIT_PER_MS = 1800  # measured: a 3.0 s `unknown` of the generic solver consumes ~5.5 M units
 WALL_FACTOR = 3
 
@@ -285,7 +302,7 @@ class PathCtx:
                     s.add(sd)
                 for t in ts:
                     s.add(t)
-                r = s.check()
+                r = guarded_check(s, self.timeout_ms * WALL_FACTOR)
                 self.stats.add("z3-bv", time.time() - t0)
                 if r != z3.unknown:
                     return r, (BVModel(self.bvtr, s.model()) if r == z3.sat else None)
@@ -297,7 +314,7 @@ class PathCtx:
         s.set("rlimit", self.timeout_ms * RLIMIT_PER_MS)
         for c in allc:
             s.add(c)
-        r = s.check()
+        r = guarded_check(s, self.timeout_ms * WALL_FACTOR)
         m = s.model() if r == z3.sat else None
         self.stats.add("z3", time.time() - t0)
         return r, m
